@@ -5,6 +5,7 @@
 package main
 
 import (
+	"encoding/binary"
 	"encoding/json"
 	"flag"
 	"fmt"
@@ -98,6 +99,7 @@ func cmdWork(args []string) int {
 	known := fs.String("known", "", "")
 	nsamples := fs.Int("samples", 3, "")
 	prof := fs.String("cpuprofile", "", "")
+	marker := fs.String("marker", "", "file that always holds the index of the run in progress")
 	_ = fs.Parse(args)
 	if *prof != "" {
 		pf, _ := os.Create(*prof)
@@ -118,7 +120,16 @@ func cmdWork(args []string) int {
 	shift := uint(0)
 	logh := kit.NewHash()
 	idx := *start
+	var mf *os.File
+	if *marker != "" {
+		mf, _ = os.Create(*marker)
+	}
 	for n := int64(0); n < *count; n++ {
+		if mf != nil {
+			var b [8]byte
+			binary.LittleEndian.PutUint64(b[:], uint64(idx))
+			_, _ = mf.WriteAt(b[:], 0)
+		}
 		if *deadline > 0 && n&63 == 0 && time.Now().Unix() >= *deadline {
 			break
 		}
@@ -226,7 +237,14 @@ func cmdReplay(args []string) int {
 			return 2
 		}
 	}
-	o := eng.Replay(t, kit.NewStats())
+	var o *kit.Outcome
+	if t.Kind == "regenerate-from-seed" {
+		// crash replays: the run is re-drawn from its seed (a process crash
+		// leaves no recorded trace to replay)
+		o = eng.Run(t.Seed, kit.NewStats())
+	} else {
+		o = eng.Replay(t, kit.NewStats())
+	}
 	rr := ReplayResult{Viol: o.Viol, Known: o.Known, Steps: o.Steps, Sig: o.Sig}
 	if *withTrace {
 		rr.Trace = o.Trace
